@@ -23,10 +23,63 @@ Two hypotheses had to be added to the statement worked out on paper; both are ne
   `isize::MAX`: the root is pruned, the next layer is empty and `bestValue = none`
   (`Ddo.C06.CounterB.counter`, machine-checked below).  `InI o` would do as well; the disjunction is weaker.
 
+There is **one** proof: `relaxed_ub_rel_dom`, relative to a layer-validity predicate `V` (`WfRel`, `NoClampDom` in
+`DdoModel/WfRel.lean`); `relaxed_ub_rel` (with `NoClamp`) and `relaxed_ub` (`V := fun _ _ => True`,
+`Ddo.Cover.wfRel_of_global`) are corollaries.  The relativised form is instantiated for the shipped knapsack example in
+`DdoModel/Examples/KnapsackModel.lean`.
+
 No hypothesis relating `cfg.root.depth` and `cfg.P.nbVars` is needed: when the fuel `nbVars + 2` runs out the
 outcome is `.crash`, which the premise `(compile …).1 = .ok` excludes. -/
 namespace Ddo.C06
 open Ddo Ddo.Cover
+
+/-- **Relativised form**: well-formedness is only required on *valid* pairs (depth, state) (`WfRel`, in
+    `DdoModel/WfRel.lean`), for a validity predicate `V` that holds at the root and is closed under expansion and
+    merge.  This is the form that can be instantiated for models whose state embeds the depth (knapsack example:
+    `DdoModel/Examples/KnapsackModel.lean`).  `relaxed_ub` below is the instance `V := fun _ _ => True`.
+    `NoClampDom` is `NoClamp` with the cost bound restricted to the decisions of the domain. -/
+theorem relaxed_ub_rel_dom {S K : Type} [DecidableEq S] [DecidableEq K]
+    (cfg : Cfg S K) (H : Nat → S → EInt) (V : Nat → S → Prop) (B : Int)
+    (cache : Cache S) (store : DomStore S K) (polls : Nat)
+    (hrel : cfg.ctype = .relaxed) (hcache : cfg.useCache = false) (hdom : cfg.dom = none) (hW : 1 ≤ cfg.width)
+    (hwf : WfRel cfg.P cfg.R H V) (hV : V cfg.root.depth cfg.root.state)
+    (hB : NoClampDom cfg.P cfg.R cfg.root.value B) (hlb : InI cfg.lb)
+    (o : Int) (ho : optOf H cfg.root = some o) (hgt : o > cfg.lb)
+    (hO : o ≤ iMax ∨ cfg.lb < iMax) :
+    (compile cfg cache store polls none).1 = .ok →
+    ∃ bv, (compile cfg cache store polls none).2.1.bestValue = some bv ∧ o ≤ bv := by
+  intro hok
+  have hclamp : ∀ x, o ≤ x → clamp x > cfg.lb := by
+    intro x hx
+    unfold InI at hlb
+    unfold clamp
+    simp only [iMin, iMax] at *
+    omega
+  have hy : Hyp cfg H V B o := ⟨hrel, hcache, hdom, hW, hwf, hB, hclamp⟩
+  obtain ⟨hbl, hbv⟩ := compile_ok cfg cache store polls hok
+  obtain ⟨n, hn, hle⟩ := buildLoop_cover cfg H V B o hy (cfg.P.nbVars + 2) (initDD cfg cache store polls)
+    (init_inv cfg H V B o cache store polls hV hB ho) (by simp [initDD]) hbl
+  have hne : (buildLoop cfg none (cfg.P.nbVars + 2) (initDD cfg cache store polls)).1.next ≠ [] :=
+    List.ne_nil_of_mem hn
+  obtain ⟨bv, h1, h2⟩ := maxValue_ge _ n hn
+  refine ⟨bv, ?_, by omega⟩
+  rw [hbv]
+  unfold Built.bestValue
+  rw [terminals_finalize _ hne]
+  exact h1
+
+/-- the same with the stronger `NoClamp` (costs bounded for all decisions, not only those of the domain) -/
+theorem relaxed_ub_rel {S K : Type} [DecidableEq S] [DecidableEq K]
+    (cfg : Cfg S K) (H : Nat → S → EInt) (V : Nat → S → Prop) (B : Int)
+    (cache : Cache S) (store : DomStore S K) (polls : Nat)
+    (hrel : cfg.ctype = .relaxed) (hcache : cfg.useCache = false) (hdom : cfg.dom = none) (hW : 1 ≤ cfg.width)
+    (hwf : WfRel cfg.P cfg.R H V) (hV : V cfg.root.depth cfg.root.state)
+    (hB : NoClamp cfg.P cfg.R cfg.root.value B) (hlb : InI cfg.lb)
+    (o : Int) (ho : optOf H cfg.root = some o) (hgt : o > cfg.lb)
+    (hO : o ≤ iMax ∨ cfg.lb < iMax) :
+    (compile cfg cache store polls none).1 = .ok →
+    ∃ bv, (compile cfg cache store polls none).2.1.bestValue = some bv ∧ o ≤ bv :=
+  relaxed_ub_rel_dom cfg H V B cache store polls hrel hcache hdom hW hwf hV hB.toDom hlb o ho hgt hO
 
 theorem relaxed_ub {S K : Type} [DecidableEq S] [DecidableEq K]
     (cfg : Cfg S K) (H : Nat → S → EInt) (B : Int) (cache : Cache S) (store : DomStore S K) (polls : Nat)
@@ -39,26 +92,9 @@ theorem relaxed_ub {S K : Type} [DecidableEq S] [DecidableEq K]
     -- added (see the header): the rough-upper-bound test, computed with saturation, can see that `o` beats `lb`
     (hO : o ≤ iMax ∨ cfg.lb < iMax) :
     (compile cfg cache store polls none).1 = .ok →
-    ∃ bv, (compile cfg cache store polls none).2.1.bestValue = some bv ∧ o ≤ bv := by
-  intro hok
-  have hclamp : ∀ x, o ≤ x → clamp x > cfg.lb := by
-    intro x hx
-    unfold InI at hlb
-    unfold clamp
-    simp only [iMin, iMax] at *
-    omega
-  have hy : Hyp cfg H B o := ⟨hrel, hcache, hdom, hW, hP, hR, hM, hAM, hB, hclamp⟩
-  obtain ⟨hbl, hbv⟩ := compile_ok cfg cache store polls hok
-  obtain ⟨n, hn, hle⟩ := buildLoop_cover cfg H B o hy (cfg.P.nbVars + 2) (initDD cfg cache store polls)
-    (init_inv cfg H B o cache store polls hB ho) (by simp [initDD]) hbl
-  have hne : (buildLoop cfg none (cfg.P.nbVars + 2) (initDD cfg cache store polls)).1.next ≠ [] :=
-    List.ne_nil_of_mem hn
-  obtain ⟨bv, h1, h2⟩ := maxValue_ge _ n hn
-  refine ⟨bv, ?_, by omega⟩
-  rw [hbv]
-  unfold Built.bestValue
-  rw [terminals_finalize _ hne]
-  exact h1
+    ∃ bv, (compile cfg cache store polls none).2.1.bestValue = some bv ∧ o ≤ bv :=
+  relaxed_ub_rel cfg H (fun _ _ => True) B cache store polls hrel hcache hdom hW
+    (wfRel_of_global hP hR hM hAM) trivial hB hlb o ho hgt hO
 
 /-- the same for models whose variable ordering does not look at the states of the layer (beyond its emptiness):
     `AttMerge` then follows from `Potential.att` -/
